@@ -4,6 +4,7 @@ Actors are the workload, not a stub of the system.  A resolver actor records sta
 and exactly what it received, suspends at a simulator point, then serves the result the reference
 executor planned for its response path (or the injected fault)."""
 import asyncio
+import zlib
 
 from simv import boot  # noqa: F401  (installs the parser stub and imports the repo's tartiflette)
 from simv.model.exec import FaultError, peek
@@ -111,6 +112,9 @@ def make_resolver(coord, bundle=None):
                 if len(tf) > 2 and tf[2] is not None:
                     raise UserError(tf[2], user_message=tf[0], extensions=dict(tf[1]))
                 raise UserError(tf[0], extensions=dict(tf[1]))
+            if kind == "raise_odd":
+                from simv.model.exec import EmptyMessageError, UnprintableError
+                raise (UnprintableError() if (zlib.crc32(repr(path).encode()) % 2) else EmptyMessageError())
             if kind == "raise_shared":
                 pool = rt.shared if rt.shared is not None else rt.__dict__.setdefault("_own_shared", {})
                 if "exc" not in pool:
